@@ -735,8 +735,8 @@ protected:
                 if (outsideCDATA == true)
                 {
                     m_writer.write(
-                        m_constants.s_cdataCloseString,
-                        m_constants.s_cdataCloseStringLength);
+                        m_constants.s_cdataOpenString,
+                        m_constants.s_cdataOpenStringLength);
                 }
 
                 m_writer.write(value_type(XalanUnicode::charRightSquareBracket));
@@ -776,13 +776,6 @@ protected:
             }
 
             ++i;
-        }
-
-        if(outsideCDATA == true)
-        {
-            m_writer.write(
-                m_constants.s_cdataOpenString,
-                m_constants.s_cdataOpenStringLength);
         }
     }
 
